@@ -441,3 +441,9 @@ impl Check for C02Check {
         }
     }
 }
+
+/// source text of a random deeper expression (shared with C04–C06)
+pub fn random_source(tape: &[u8]) -> String {
+    let (toks, layout) = random_tokens(tape);
+    render(&toks, layout)
+}
